@@ -115,6 +115,10 @@ def check(case, ctx):
     cd = case["c"]
     flag = case["inputs"]
     c = G.build(cg, cd, case["via"])
+    if cd["bbs"] and (len(cd["nodes"]) + len(cd["edges"])) % 3 == 0:
+        # the same graph wrapped without an instance registry (Circuit(graph=g)): pins are pins by their node type
+        c = cg.Circuit(name=c.name, graph=c.graph.copy())
+        ctx.count("graph_with_pins_but_no_registry")
     before = Net.of(c)
     ctx.count(f"class:{case['kind']}")
     if before.has_x():
@@ -191,5 +195,5 @@ def check(case, ctx):
 
 
 def gates(counters, table, tier):
-    need = ["insertion_order:shuffled", "class:pins", "class:pins+dead_pin_net", "with_x_constant", "class:plain", "inputs=True", "inputs=False", "has_dead_logic", "has_unloaded_input", "has_input_loaded_only_by_dead_logic", "has_dead_bb_output"]
+    need = ["insertion_order:shuffled", "class:pins", "class:pins+dead_pin_net", "with_x_constant", "class:plain", "inputs=True", "inputs=False", "has_dead_logic", "has_unloaded_input", "has_input_loaded_only_by_dead_logic", "has_dead_bb_output", "graph_with_pins_but_no_registry"]
     return [f"{k} seen {counters.get(k, 0)} times" for k in need if counters.get(k, 0) < 10]
